@@ -461,8 +461,10 @@ fn eval_seq(req: &str) -> ImplOut {
                 match p[0] {
                     "W" => {
                         let w = f64::from_bits(p[2].parse().unwrap());
-                        if f64::from_bits(y.act) != w {
-                            fail("value-not-set", format!("column {c}: asked {w:?}, actual width {:?}", f64::from_bits(y.act)));
+                        // the width is stored as w / 9 and read as (w / 9) * 9: equal up to rounding
+                        let got = f64::from_bits(y.act);
+                        if !(got == w || (got - w).abs() <= 1e-12 * w.abs()) {
+                            fail("value-not-set", format!("column {c}: asked {w:?}, actual width {got:?}"));
                         }
                     }
                     _ => {
@@ -524,7 +526,7 @@ fn eval_seq(req: &str) -> ImplOut {
                     "h" => {
                         let h = f64::from_bits(p[2].parse().unwrap());
                         let got = f64::from_bits(y.act);
-                        if !((got - h).abs() <= 1e-12 * h.abs()) {
+                        if !(got == h || (got - h).abs() <= 1e-12 * h.abs()) {
                             fail("value-not-set", format!("row {r}: asked {h:?}, actual height {got:?}"));
                         }
                     }
